@@ -117,7 +117,14 @@ func symxC16File() {
 
 // symxC16Static: the static store admits exactly the configured pair, in the default mount point.
 func symxC16Static() {
-	u, p := symxLetter("user", 'a', 'b'), symxLetter("pw", 'p', 'q')
+	// the configured pair: each part may be empty as well
+	u, p := "", ""
+	if !rt.Bool("configured_user_empty") {
+		u = symxLetter("user", 'a', 'b')
+	}
+	if !rt.Bool("configured_pw_empty") {
+		p = symxLetter("pw", 'p', 'q')
+	}
 	h, err := StaticHandler(u, p)
 	rt.Assert(err == nil, "C16.static.created")
 	var cu, cp []byte
